@@ -436,9 +436,13 @@ private:
 		static_assert(PrototypeInfo::index >= 0, "Can't find invoker for the given argument types.");
 		static_assert(std::tuple_size<typename PrototypeInfo::ArgsTuple>::value == sizeof...(Args), "Arguments count mismatch.");
 
+		// The event must be obtained before the arguments are forwarded into the tuple below (a getEvent
+		// policy may read them); inside one argument list the evaluation order is unspecified.
+		const EventType_ event = GetEvent::getEvent(std::forward<T>(first), args...);
+
 		doEnqueueItem(QueuedItemType(
 			PrototypeInfo::index,
-			GetEvent::getEvent(std::forward<T>(first), args...),
+			event,
 			&HeterEventQueueBase::doDispatchItem<PrototypeInfo>,
 			typename PrototypeInfo::ArgsTuple(std::forward<Args>(args)...)
 		));
